@@ -477,6 +477,10 @@ class Ctx:
             else:
                 new_fail.append(f)
         if new_fail:
+            sigs = {}
+            for f in new_fail:
+                sigs.setdefault(f["sig"], f["what"][:300])
+            self.cov["unlisted_failure_signatures"] = sigs      # every distinct one (only the first five get a replay file)
             # smallest case first
             new_fail.sort(key=lambda f: len(json.dumps(f["case"], default=str)))
             seen = set()
